@@ -156,6 +156,7 @@ fn fill(s: &mut Spec, template: &Aff) {
 
 pub fn run_case(ctx: &Ctx, case: u64, ev: &mut Ev) {
     let mut rng = Rng::derive(ctx.seed, "C08", case);
+    rng.big = ctx.tier == crate::Tier::Thorough && rng.chance(0.2);
     let rg = match rng.below(10) {
         0..=4 => Regime::Int,
         5..=7 => Regime::Dyadic,
@@ -164,7 +165,7 @@ pub fn run_case(ctx: &Ctx, case: u64, ev: &mut Ev) {
     let n = 1 + rng.below(3);
     let m = 1 + rng.below(3);
     let mut cfg = TreeCfg::basic(2, n, m, rg);
-    cfg.max_depth = 1 + rng.below(5);
+    cfg.max_depth = 1 + rng.below(if rng.big { 8 } else { 5 });
     cfg.p_stop = 0.15;
     cfg.p_missing = if rng.chance(0.3) { 0.2 } else { 0.0 };
     cfg.p_equal_sibs = 0.2;
